@@ -43,6 +43,7 @@ ROWS = [
     (19, 'EMemory', ['-w', '200000,0,0,0,1,0,0,0.000001', '--excitation-pulse=2']),
     (20, 'EFloat', W + ['--ff-distance=1e-320', '--option=far-field-absolute']),
     (20, 'EValue', W + ['--near-field=1,1,1,1e308,1,1,3,1,1']),
+    (20, 'EFloat', ['-w', '10,0,-5,0,0,5,0,0.001', '--phi=0,0,1', '--theta=0,10,3', '--ff-distance=1e-300', '--ff-power=1e300', '--option=far-field-absolute']),
     (12, 'EValue', W + ['--laplace-load-a=' + ','.join(['1'] * 60), '--laplace-load-b=1', '--attach-load=1,all']),
     (0, None, W + ['--frequency-steps=' + '9' * 400, '--frequency-increment=1']),
     (18, 'EOs', W + ['--output-cmdline=/nonexistent-dir/x.pym']),
